@@ -196,6 +196,12 @@ def register_terms_within(R):
             # decoding the i-th term gives the i-th word (TERM is injective on indices by the assumption below)
             return WORD(WIDX(to_z3(b)))
 
+        def m_spelling_fieldname(self, I, fieldname):
+            # the field searched is the one holding the unmodified words (the field itself unless it keeps a separate
+            # spelling field); which terms that field offers is expand_prefix's business
+            I.ghost["tw_spellfield"] = Opaque("spelling field of " + str(fieldname))
+            return I.ghost["tw_spellfield"]
+
     class Schema(Abstract):
         def havoc(self, I):
             pass
@@ -217,8 +223,14 @@ def register_terms_within(R):
         I.assume(KEPT(0) == 0)
         I.ghost["tw_terms"] = terms
         # expand_prefix is a collaborator here (its own behaviour: lexicon order, prefix filter - bounded fuzzy harness)
+        def expand(I_, args):
+            # the candidates must come from the field's SPELLING field (same as the per-segment reader): asking any other
+            # field is a defect (one segment and many segments would disagree)
+            I_.oblige("assert", "candidates-from-the-spelling-field", z3.BoolVal(args[0] is I_.ghost.get("tw_spellfield")),
+                      note="expand_prefix is asked for the field returned by fieldobj.spelling_fieldname(fieldname)")
+            return terms
         rd = Obj(I.repo.klass(RD, "IndexReader"), {"schema": Schema(),
-                                                   "expand_prefix": Builtin("expand_prefix", lambda I_, args, kw, node: terms)})
+                                                   "expand_prefix": Builtin("expand_prefix", lambda I_, args, kw, node: expand(I_, args))})
         return {"self": rd, "fieldname": Opaque("fieldname"), "text": Text(), "maxdist": z3.Int("maxdist"), "prefix": z3.Int("prefix")}
 
     def dist_stub(I, args, kw, node):
